@@ -1191,12 +1191,14 @@ class OdeSystem(object):
             else:
                 return StateTuple(t=self.t[index], y=self.y[index], event=None)
         elif isinstance(index, slice):
+            # the bisection needs increasing values: search in -t when the run goes backward in time
+            sgn = -1 if self.counter > 0 and self.t[-1] < self.t[0] else 1
             if index.start is not None:
-                start_idx = deutil.search_bisection(self.t[:self.counter + 1], index.start)
+                start_idx = deutil.search_bisection(sgn * self.t[:self.counter + 1], sgn * index.start)
             else:
                 start_idx = 0
             if index.stop is not None:
-                end_idx = deutil.search_bisection(self.t[:self.counter + 1], index.stop) + 1
+                end_idx = deutil.search_bisection(sgn * self.t[:self.counter + 1], sgn * index.stop) + 1
             else:
                 end_idx = self.counter + 1
             if index.step is not None:
